@@ -64,6 +64,7 @@ func Regist(s *Stream) {
 // Unregist 取消注册
 func Unregist(s *Stream) {
 	si, ok := streams.Load(s.path)
+	verifPoint("unregist.loaded", s)
 	if ok {
 		s2 := si.(*Stream)
 		if s2 == s {
